@@ -904,12 +904,16 @@ func c20M3Probe(c *mon.Ctx, r *mon.Rand) {
 			if fam[i].IsDur {
 				h := rep.AllocateHistogram(name, nil, tally.DurationBuckets(append([]time.Duration(nil), fam[i].D...)))
 				for _, p := range mon.RefPairsD(fam[i].D) {
-					h.DurationBucket(p.Lo, p.Hi).ReportSamples(1)
+					if p.Lo < p.Hi { // (zero-width buckets of repeated bounds never hold samples)
+						h.DurationBucket(p.Lo, p.Hi).ReportSamples(1)
+					}
 				}
 			} else {
 				h := rep.AllocateHistogram(name, nil, tally.ValueBuckets(append([]float64(nil), fam[i].V...)))
 				for _, p := range mon.RefPairsV(fam[i].V) {
-					h.ValueBucket(p.Lo, p.Hi).ReportSamples(1)
+					if p.Lo < p.Hi {
+						h.ValueBucket(p.Lo, p.Hi).ReportSamples(1)
+					}
 				}
 			}
 		}
@@ -932,6 +936,32 @@ func c20M3Probe(c *mon.Ctx, r *mon.Rand) {
 			return
 		}
 		name := fmt.Sprintf("f%d", i)
+		// one sample was reported on every bucket (repeated bounds make zero-width
+		// buckets of their own): as many emissions as buckets, no bucket id twice
+		var wantIDs []int // positions, among all buckets of the sorted set, of those that are not zero-width
+		if fam[i].IsDur {
+			for k, p := range mon.RefPairsD(fam[i].D) {
+				if p.Lo < p.Hi {
+					wantIDs = append(wantIDs, k)
+				}
+			}
+		} else {
+			for k, p := range mon.RefPairsV(fam[i].V) {
+				if p.Lo < p.Hi {
+					wantIDs = append(wantIDs, k)
+				}
+			}
+		}
+		var gotIDs []int
+		for _, e := range shared[name] {
+			id := -1
+			fmt.Sscanf(e, "%d", &id)
+			gotIDs = append(gotIDs, id)
+		}
+		if fmt.Sprint(gotIDs) != fmt.Sprint(wantIDs) {
+			c.Violation("m3-bucket-ids-not-the-bucket-positions", map[string]interface{}{"why": fmt.Sprintf("set %d (%s): one sample was reported on every bucket that is not zero-width, in order; their positions among the buckets of the sorted set are %v, the bucket ids emitted are %v (%v)", i, fam[i].Why, wantIDs, gotIDs, shared[name]), "family": fam})
+			return
+		}
 		if fmt.Sprint(alone[name]) != fmt.Sprint(shared[name]) {
 			c.Violation("m3-bucket-tags-differ-when-sets-share-a-reporter", map[string]interface{}{"why": fmt.Sprintf("set %d (%s): bucket tags emitted on a reporter of its own %v; emitted after the other sets of the family were allocated on the same reporter %v", i, fam[i].Why, alone[name], shared[name]), "family": fam})
 			return
